@@ -566,9 +566,9 @@ func Run(r *evid.Run) {
 	bndLen, bndProg, bndDev := 9, 6, 1
 	a1Len, bLen := 5, 3
 	if !quick {
-		exhLen, exhProg = 7, 5
-		bndLen, bndProg, bndDev = 12, 8, 2
-		a1Len, bLen = 7, 4
+		exhLen, exhProg = 6, 5
+		bndLen, bndProg, bndDev = 11, 7, 2
+		a1Len, bLen = 6, 4
 	}
 	vs := []views.View{
 		{Name: "A1-structural", Alpha: views.A1, MaxLen: a1Len, Prefix: ""},
